@@ -37,6 +37,7 @@ type Plan struct {
 	Boxes           []string
 	Sessions        []string
 	CheckDBEachStep bool
+	MaxMsgs, MaxUID int // configured limits (C17)
 	// Scripts are cfg files whose Script constant fixes one schedule (witnesses of the known deviations):
 	// each yields one behaviour, replayed before the simulated ones (by shard 0).
 	Scripts []string
@@ -77,7 +78,7 @@ func ReplayAll(run *ev.Run, plan Plan, traces []*Trace, source string) {
 	defer g.Release()
 	drifts := 0
 	for ti, t := range traces {
-		rig, err := NewRig(g, Options{Sessions: plan.Sessions, Boxes: plan.Boxes, CheckDBEachStep: plan.CheckDBEachStep})
+		rig, err := NewRig(g, Options{Sessions: plan.Sessions, Boxes: plan.Boxes, CheckDBEachStep: plan.CheckDBEachStep, MaxMsgs: plan.MaxMsgs, MaxUID: plan.MaxUID})
 		if err != nil {
 			run.Machinery("cannot start a server: %v", err)
 			return
